@@ -13,3 +13,10 @@ Definition f16D : dialect := mkDialect false false false [SEMI] [SP] [COMMA] GTF
 Example C08_gtf_unquoted_refuted :
   exists m, mapping_ok m = true /\ known_F16 f16D = true /\ split_with f16D (reconstruct to_quote m f16D false false) <> Ok m.
 Proof. exists [(U "k"%bs, [U "a "%bs])]. vm_compute. repeat split; try reflexivity. discriminate. Qed.
+
+(* C08_line_roundtrip: a feature with negative and huge coordinates, an empty column, two extra columns (one empty) *)
+Definition exF : feature := mkFeature (U "chr 1"%bs) [] (U "gene"%bs) (Some (-5)%Z) (Some 123456789012345678901234567890%Z)
+  [DOT] [43] [DOT] exM [U "x y"%bs; []] exD false false.
+Example C08_line_roundtrip_inhabited :
+  feature_from_line (fun _ => false) (feature_str to_quote exF) (Some exD) false = Ok exF.
+Proof. vm_compute. reflexivity. Qed.
